@@ -646,7 +646,20 @@ func main() {
 		os.Exit(2)
 	}
 	defer w.e.Close()
+	emitted := 0
 	emit := func(k *Case) {
+		// the store keeps one JSON list of all key ids per provisioner (rewritten on every key
+		// creation): start over with a fresh environment now and then to stay linear
+		emitted++
+		if emitted%1500 == 0 {
+			w.e.Close()
+			nw, err := newWorld()
+			if err != nil {
+				fmt.Fprintln(os.Stderr, "environment:", err)
+				os.Exit(2)
+			}
+			*w = *nw
+		}
 		var line, impl, oracle string
 		func() {
 			defer func() {
